@@ -194,6 +194,7 @@ int32 matrixSslDecodeTls13(ssl_t *ssl,
     psSize_t parsedBytes = 0;
     psBuf_t tmp;
     psBool_t useOutbufForResponse = PS_FALSE;
+    psBool_t recordWasDecrypted = PS_FALSE;
 
     if (ssl->flags & SSL_FLAGS_NEED_ENCODE)
     {
@@ -301,6 +302,7 @@ parse_next_record_header:
 
     if (DECRYPTING_RECORDS(ssl))
     {
+        recordWasDecrypted = PS_TRUE;
         decryptTo = pb.buf.start; /* In-situ decryption. */
         if (ssl->decrypt(ssl, pb.buf.start, decryptTo, ssl->rec.len) < 0)
         {
@@ -430,7 +432,11 @@ parse_next_record_header:
                     &p, end);
             if (rc < 0)
             {
-                if (DECRYPTING_RECORDS(ssl))
+                /* Skip tag, type and padding of THIS record: whether it was
+                   protected is not the same as whether records are being
+                   decrypted now (a plaintext ServerHello turns the read
+                   keys on). */
+                if (recordWasDecrypted)
                 {
                     p += TLS_GCM_TAG_LEN;
                     p += 1;
